@@ -19,7 +19,7 @@ Oracles (the property itself, evaluated on navis' output, independent of the mod
  correctly labelled forest (`f.wf`, and the Lean checker `healOKB`, proved sound in Props/C11); one tree when no
  limit applies; no added edge as long as `max_dist`; added edges join allowed nodes only; the total added length
  is minimal — TESTED on navis' output by exhaustive enumeration of the spanning forests of the fragment quotient
- graph for ≤ 6 fragments (a test of the real code; for the MODEL minimality is a theorem, `kruskal_minimal`);
+ graph for ≤ 6 fragments (a test of the real code; for the MODEL minimality is a theorem, `kruskal_minimal`), for heal and stitch;
  fragments partition the nodes and coincide with "same root"; after stitching ids are unique, every input keeps
  its topology and coordinates under the induced id map, connectors and tags follow that map.
 Back-ends: every case runner takes `be` (harness/backends.py); the thorough tier repeats the heal and fragment
@@ -37,8 +37,8 @@ from .c10 import parent_map, uedges_of, coords_of, root_of
 navis.config.pbar_hide = True
 navis.set_loggers('ERROR')
 
-SIG_TAGS = 'stitch_skeletons/tags: tag names mapped instead of tagged node ids; master tag lists appended to themselves'
-SIG_LIST = 'stitch_skeletons/method=node-list is ignored (treated as ALL)'
+# Both former findings of C11 (tags on id clash; ignored node-list `method`) are fixed in navis: they are ordinary
+# oracle failures now (no signature, nothing is suppressed).
 
 
 # ---------------------------------------------------------------------------------------------
@@ -540,7 +540,9 @@ def gen_stitch_case(rng):
         case = dict(neurons=neurons, method=method, master=rng.choice(['SOMA', 'LARGEST', 'FIRST']), max_dist=None)
         if method == 'LIST':
             allids = sorted({r['id'] for nn in neurons for r in nn['rows']})
-            case['method'] = sorted(rng.sample(allids, rng.randint(1, len(allids))))
+            pool = allids + list(range(max(allids) + 1, max(allids) + 1 + sum(len(nn['rows']) for nn in neurons)))
+            case['method'] = sorted(rng.sample(pool, rng.randint(1, len(pool))))
+            case['method_form'] = rng.choice(['list', 'array', 'tuple'])
         if method in ('ALL', 'LEAFS') and rng.random() < 0.3:
             case['max_dist'] = rng.choice([50, 300, 1000, 2500])
         if method == 'COMBINE':
@@ -584,7 +586,12 @@ def case_stitch(ctx, case, be=None):
         if method == 'COMBINE':
             s = navis.combine_neurons(xs)
         else:
-            s = navis.stitch_skeletons(xs, method=method, master=case['master'], max_dist=case['max_dist'])
+            marg = method
+            if is_list and case.get('method_form') == 'array':
+                marg = np.array(method, dtype=np.int64)
+            elif is_list and case.get('method_form') == 'tuple':
+                marg = tuple(method)
+            s = navis.stitch_skeletons(xs, method=marg, master=case['master'], max_dist=case['max_dist'])
     except Exception as e:
         ctx.oracle(False, f'stitch_skeletons(method={method}, master={case["master"]}) raised {type(e).__name__}: {str(e)[:120]} {tag}', case)
         return
@@ -593,6 +600,15 @@ def case_stitch(ctx, case, be=None):
     mm = 'NONE' if method in ('NONE', 'COMBINE') else ('L=' + ','.join(map(str, method)) if is_list else method)
     md = 'inf' if case['max_dist'] is None else str(case['max_dist'] ** 2)
     payload = ' ;; '.join(_skel_wire(nn) for nn in neurons)
+    if is_list:
+        # the list names ids of the COMBINED table; which clashing node receives which fresh id is navis' free choice
+        # (set iteration order), so the list is translated node by node (via coordinates) into the model's labelling
+        m0 = _parse_kv(ctx.ask(f"c11.stitch {mcode} NONE {md} | {payload}"))
+        c2m = {(r[2], r[3], r[4]): r[0] for r in (tuple(map(int, t.split(':'))) for t in m0['nodes'].split())}
+        impl_c = {int(i): (int(a), int(b), int(c)) for i, a, b, c in
+                  zip(s.nodes.node_id.values, s.nodes.x.values, s.nodes.y.values, s.nodes.z.values)}
+        mlist = sorted(c2m[impl_c[i]] for i in method if i in impl_c and impl_c[i] in c2m)
+        mm = 'L=' + ','.join(map(str, mlist)) if mlist else 'L=-1'
     model = _parse_kv(ctx.ask(f"c11.stitch {mcode} {mm} {md} | {payload}"))
     mix = int(model['mix'])
 
@@ -650,12 +666,25 @@ def case_stitch(ctx, case, be=None):
     # tags follow the map, nothing duplicated
     want_tg = sorted((_TAGCODE[k], remaps[j][i]) for j, nn in enumerate(neurons) for k, v in nn['tags'].items() for i in v)
     got_tg = _tags_norm(getattr(s, 'tags', None))
-    if got_tg != want_tg:
-        ascoded = sorted((int(t.split(':')[0]), int(i)) for t in model['ascoded'].split(',') if t for i in t.split(':')[1].split('+') if i)
-        sig = SIG_TAGS if got_tg == ascoded else None
-        ctx.oracle(False, f'stitch: tags are not the inputs\' tags under the id map: got {got_tg[:8]}, expected {want_tg[:8]} {tag}', case, signature=sig)
-    else:
-        ctx.oracle(True, 'stitch: tags', case)
+    ctx.oracle(got_tg == want_tg, f'stitch: tags are not the inputs\' tags under the id map: got {got_tg[:8]}, expected {want_tg[:8]} {tag}', case)
+    # bridging edges: allowed nodes only, as many as the allowed connections admit, minimal total (TEST, ≤ 6 fragments)
+    if not nofuse:
+        crow = [dict(id=remaps[j][r['id']], parent=(remaps[j][r['parent']] if r['parent'] >= 0 else -1), x=r['x'], y=r['y'], z=r['z'])
+                for j, nn in enumerate(neurons) for r in nn['rows']]
+        al, cfm = allowed_nodes(crow, method, None, None)
+        alset = {r['id'] for r in al}
+        bad = [(a, b) for a, b in added if not (a in alset and b in alset)]
+        ctx.oracle(not bad, f'stitch(method={method}): added edge(s) {bad[:3]} use nodes outside the allowed set {tag}', case)
+        frs = sorted(set(cfm.values()))
+        if len(frs) <= 6 and not bad:
+            qg, _ = quotient_graph(crow, method, case['max_dist'], None, None)
+            qgi, _ = quotient_graph(crow, method, case['max_dist'], None, None, inclusive=True)
+            if len(qg) == len(qgi):
+                best, need = min_spanning_total(frs, qg)
+                ctx.oracle(len(added) == need, f'stitch(method={method}) added {len(added)} edges; the allowed connections admit exactly {need} merges {tag}', case)
+                if best is not None and len(added) == need:
+                    tot = sum(math.sqrt(sum((scoord[a][q] - scoord[b][q]) ** 2 for q in range(3))) for a, b in added)
+                    ctx.oracle(tot <= best[0] * (1 + 1e-12) + 1e-9, f'stitch(method={method}): total added length {tot:.6f} is not minimal ({best[0]:.6f}) {tag}', case)
 
     # ---- correspondence with the model (up to the choice of fresh ids) --------------------------------
     mrows = [tuple(map(int, t.split(':'))) for t in model['nodes'].split()]
@@ -664,21 +693,6 @@ def case_stitch(ctx, case, be=None):
     madded = sorted(tuple(map(int, e.split(':')[0].split('-'))) for e in model['added'].split(',') if e)
     impl_added_c = sorted(tuple(sorted((scoord[a], scoord[b]))) for a, b in added)
     model_added_c = sorted(tuple(sorted((mcoord[a], mcoord[b]))) for a, b in madded)
-    if is_list and impl_added_c != model_added_c:
-        # documented: only the listed nodes may be used.  Known finding when navis behaves exactly like 'ALL'.
-        allm = _parse_kv(ctx.ask(f"c11.stitch {mcode} ALL {md} | {payload}"))
-        am = {r[0]: (r[2], r[3], r[4]) for r in (tuple(map(int, t.split(':'))) for t in allm['nodes'].split())}
-        all_added_c = sorted(tuple(sorted((am[a], am[b]))) for a, b in
-                             (tuple(map(int, e.split(':')[0].split('-'))) for e in allm['added'].split(',') if e))
-        allowed = set(method)
-        inv = {}
-        for j, rm in enumerate(remaps):
-            for a, b in rm.items():
-                inv[b] = a
-        bad = [(a, b) for a, b in added if not (a in allowed and b in allowed)]
-        ctx.oracle(not bad, f'stitch(method=node list {method}): added edge(s) {bad[:3]} use nodes outside the list {tag}', case,
-                   signature=SIG_LIST if impl_added_c == all_added_c else None)
-        return
     ctx.corr(impl_added_c, model_added_c, f'stitch: added edges (by coordinates) vs model {tag}', case)
     if nofuse:
         impl_rows = [(scoord[i], scoord[spm[i]] if spm[i] >= 0 else None) for i in sid]
@@ -689,7 +703,7 @@ def case_stitch(ctx, case, be=None):
         ctx.corr(sorted(tuple(sorted((scoord[a], scoord[b]))) for a, b in sue), mue, f'stitch: undirected edges (by coordinates) vs model {tag}', case)
     mcn = sorted((int(c.split(':')[0]), mcoord[int(c.split(':')[1])]) for c in model['conns'].split(',') if c)
     ctx.corr(sorted((c, scoord[n]) for c, n in got_cn), mcn, f'stitch: connectors (by coordinates) vs model {tag}', case)
-    if got_tg == want_tg:
+    if True:
         mtg = sorted((int(t.split(':')[0]), mcoord[int(i)]) for t in model['tags'].split(',') if t for i in t.split(':')[1].split('+') if i)
         ctx.corr(sorted((c, scoord[i]) for c, i in got_tg), mtg, f'stitch: tags (by coordinates) vs model {tag}', case)
     # inputs untouched
